@@ -57,7 +57,10 @@ def parse_type(s):
                 cur += ch
         parts.append(cur)
         return ("Tuple", tuple(parse_type(p) for p in parts))
-    if s in ("Int", "Rat", "Bool", "Val", "Unit", "Nat"):
+    if s.startswith("Dict[") and s.endswith("]"):
+        t = parse_type("Tuple[" + s[5:-1] + "]")
+        return ("Dict", t[1][0], t[1][1])
+    if s in ("Int", "Rat", "Bool", "Val", "Unit", "Nat", "Obj"):
         return s
     raise ValueError(f"unknown type {s}")
 
@@ -65,8 +68,12 @@ def parse_type(s):
 def lean_type(t):
     if t == "Val":
         return "α"
+    if t == "Obj":
+        return "Nat"
     if isinstance(t, str):
         return t
+    if t[0] == "Dict":
+        return f"(List ({lean_type(t[1])} × {lean_type(t[2])}))"
     if t[0] == "List":
         return f"(List {lean_type(t[1])})"
     if t[0] == "Opt":
@@ -83,6 +90,8 @@ def uses_val(t):
         return False
     if t[0] in ("List", "Opt"):
         return uses_val(t[1])
+    if t[0] == "Dict":
+        return uses_val(t[1]) or uses_val(t[2])
     return any(uses_val(x) for x in t[1])
 
 
@@ -134,12 +143,23 @@ class Tr:
         self.ignore_fields = set(spec.get("ignore_fields", []))
         self.ignore_params = set(spec.get("ignore_params", []))
         self.fuel = spec.get("fuel", {})
+        self.heap = spec.get("heap", False)           # object graph: attributes are functions of a `Heap`
+        self.classes = spec.get("classes", {})          # isinstance(x, Cls) -> heap predicate
+        self.attrs = spec.get("attrs", {})              # x.attr -> (heap field, type)
+        self.methods = spec.get("methods", {})          # x.meth(args) -> (heap field, type)
+        self.submaps = spec.get("subscript_maps", {})   # name[x] -> (heap field, type)
+        self.conds = spec.get("conds", {})              # condition source -> Lean proposition
+        self.drop_assign = set(spec.get("drop_assign", []))
+        self.mut_params = list(spec.get("mut_params", []))
+        self.recursive = spec.get("recursive", False)
         self.aux = []  # finished auxiliary definitions (text)
+        self.tags = {}
         self.counter = 0
         self.tmp = 0
         self.mutated = self._mutated_fields()
         # the result type of every term
-        parts = ([] if self.ret == "Unit" else [self.ret]) + [self.fields[f] for f in self.mutated]
+        parts = (([] if self.ret == "Unit" else [self.ret]) + [self.fields[f] for f in self.mutated]
+                 + [self.params[q] for q in self.mut_params])
         if not parts:
             self.res_type = "Unit"
         elif len(parts) == 1:
@@ -205,6 +225,15 @@ class Tr:
             if node.id in env:
                 return [], node.id, env[node.id]
             raise Untranslatable(f"unknown name {node.id}")
+        if isinstance(node, ast.Dict) and not node.keys:
+            return [], "[]", ("Dict", "?", "?")
+        if isinstance(node, ast.Attribute) and node.attr in self.attrs and not (
+                isinstance(node.value, ast.Name) and node.value.id == "self" and ("self_" + node.attr) in env):
+            b, c, t = self.E(node.value, env)
+            if t != "Obj":
+                raise Untranslatable(f"attribute {node.attr} of a non-object ({t}): {src}")
+            fld, ty = self.attrs[node.attr]
+            return b, f"(h.{fld} {c})", parse_type(ty)
         if isinstance(node, ast.Attribute):
             if isinstance(node.value, ast.Name) and node.value.id == "self":
                 f = node.attr
@@ -221,8 +250,16 @@ class Tr:
                 cs.append(c)
                 ts.append(t)
             return bs, "(" + ", ".join(cs) + ")", ("Tuple", tuple(ts))
+        if isinstance(node, ast.Subscript) and dotted(node.value) in self.submaps:
+            fld, ty = self.submaps[dotted(node.value)]
+            b, c, t = self.E(node.slice, env)
+            return b, f"(h.{fld} {c})", parse_type(ty)
         if isinstance(node, ast.Subscript):
             b, c, t = self.E(node.value, env)
+            if isinstance(t, tuple) and t[0] == "Dict":
+                bk, ck, tk = self.E(node.slice, env)
+                x = self.fresh()
+                return b + bk + [f"let {x} ← Py.dictGet {c} {ck}"], x, t[2]
             if isinstance(t, tuple) and t[0] == "Tuple":
                 if not (isinstance(node.slice, ast.Constant) and isinstance(node.slice.value, int)):
                     raise Untranslatable(f"tuple index {src}")
@@ -331,8 +368,38 @@ class Tr:
                 return b, f"(Py.totalSeconds {self.as_int(c, t)})", "Rat"
             if meth in self.spec.get("identity_methods", ["to_reduced_units"]) and not node.args:
                 return self.E(node.func.value, env)
-            if meth == "values" and not node.args:  # dict given as its list of values
-                return self.E(node.func.value, env)
+            if meth in ("values", "items", "keys") and not node.args:
+                b, c, t = self.E(node.func.value, env)
+                if isinstance(t, tuple) and t[0] == "Dict":
+                    if meth == "items":
+                        return b, c, ("List", ("Tuple", (t[1], t[2])))
+                    if meth == "values":
+                        return b, f"(List.map Prod.snd {c})", ("List", t[2])
+                    return b, f"(List.map Prod.fst {c})", ("List", t[1])
+                if meth == "values":  # dict given as its list of values
+                    return b, c, t
+            if meth in self.methods:
+                b, c, t = self.E(node.func.value, env)
+                if t == "Obj":
+                    fld, ty = self.methods[meth]
+                    bs, cs = list(b), []
+                    for a in node.args:
+                        ba, ca, _ta = self.E(a, env)
+                        bs += ba
+                        cs.append(ca)
+                    return bs, f"(h.{fld} {c} {' '.join(cs)})", parse_type(ty)
+        if fn in ("any", "all") and len(node.args) == 1 and isinstance(node.args[0], ast.GeneratorExp):
+            g = node.args[0]
+            if len(g.generators) != 1 or g.generators[0].ifs:
+                raise Untranslatable(f"generator {src}")
+            b, lst, et = self.iter_list(g.generators[0].iter, env)
+            pat, add = self.pattern(g.generators[0].target, et)
+            e2 = dict(env)
+            e2.update(add)
+            bc, cc = self.C(g.elt, e2)
+            if bc:
+                raise Untranslatable(f"fallible element test in {src}")
+            return b, f"(List.{fn} {lst} (fun {pat} => decide {cc}))", "Bool"
         if fn in ("len",):
             b, c, t = self.E(node.args[0], env)
             if not (isinstance(t, tuple) and t[0] == "List"):
@@ -358,18 +425,33 @@ class Tr:
             if how == "id":
                 return self.E(node.args[0], env)
             if isinstance(how, dict):
-                # another translated function: {"lean": name, "args": [python exprs or self fields], "ret": type}
+                # another translated function (or this one, recursively):
+                # {"lean": name, "args": [positions or python exprs], "ret": type, "argtypes": [...],
+                #  "defaults": {pos: lean code}, "heap": bool, "rec": bool, "updates": [mutable params rebound]}
                 bs, cs = [], []
-                for a in how["args"]:
+                for j, a in enumerate(how["args"]):
                     if isinstance(a, int):
-                        b, c, _t = self.E(node.args[a], env)
+                        if a >= len(node.args):
+                            cs.append(how.get("defaults", {})[str(a)])
+                            continue
+                        b, c, t = self.E(node.args[a], env)
                     else:
-                        b, c, _t = self.E(ast.parse(a, mode="eval").body, env)
+                        b, c, t = self.E(ast.parse(a, mode="eval").body, env)
+                    if "argtypes" in how:
+                        want = parse_type(how["argtypes"][j])
+                        if t != want:
+                            if isinstance(t, tuple) and t[0] == "Opt" and t[1] == want:
+                                b, c, t = self.unopt(b, c, t)
+                            else:
+                                c, t = self.coerce_to(c, t, want)
                     bs += b
                     cs.append(c)
                 x = self.fresh()
                 al = " ".join(f"({c})" if " " in c and not c.startswith("(") else c for c in cs)
-                return bs + [f"let {x} ← {how['lean']} {al}"], x, parse_type(how["ret"])
+                pre = ("h " if how.get("heap") else "") + ("fuel " if how.get("rec") else "")  # main: heap first, then fuel
+                ups = how.get("updates", [])
+                pat = x if not ups else "(" + ", ".join([x] + ups) + ")"
+                return bs + [f"let {pat} ← {how['lean']} {pre}{al}"], x, parse_type(how["ret"])
         raise Untranslatable(f"call {src}")
 
     # ---- conditions (Prop) ----------------------------------------------------------------
@@ -379,6 +461,14 @@ class Tr:
             return [], "False"
         if src in self.assume_true:
             return [], "True"
+        if src in self.conds:
+            return [], self.conds[src]
+        if isinstance(node, ast.Call) and dotted(node.func) == "isinstance" and len(node.args) == 2:
+            cls = dotted(node.args[1])
+            if cls in self.classes:
+                b, c, t = self.E(node.args[0], env)
+                if t == "Obj":
+                    return b, f"(h.{self.classes[cls]} {c} = true)"
         if isinstance(node, ast.BoolOp):
             bs, cs = [], []
             for v in node.values:
@@ -397,7 +487,14 @@ class Tr:
             bs, parts = [], []
             left = node.left
             for op, right in zip(node.ops, node.comparators):
-                if isinstance(op, (ast.Is, ast.IsNot)):
+                if isinstance(op, (ast.In, ast.NotIn)):
+                    bk, ck, _tk = self.E(left, env)
+                    bd, cd, td = self.E(right, env)
+                    if not (isinstance(td, tuple) and td[0] == "Dict"):
+                        raise Untranslatable(f"membership test on {td}: {src}")
+                    bs += bk + bd
+                    parts.append(f"(Py.dictHas {cd} {ck} = {'true' if isinstance(op, ast.In) else 'false'})")
+                elif isinstance(op, (ast.Is, ast.IsNot)):
                     if not (isinstance(right, ast.Constant) and right.value is None):
                         raise Untranslatable(f"identity test {src}")
                     b, c, t = self.E(left, env)
@@ -430,7 +527,7 @@ class Tr:
     # ---- statements -----------------------------------------------------------------------
     def result(self, env, value_code):
         """`pure` of the function result: return value + mutated fields"""
-        parts = ([] if self.ret == "Unit" else [value_code]) + ["self_" + f for f in self.mutated]
+        parts = ([] if self.ret == "Unit" else [value_code]) + ["self_" + f for f in self.mutated] + list(self.mut_params)
         if not parts:
             return "pure ()"
         return "pure " + (parts[0] if len(parts) == 1 else "(" + ", ".join(parts) + ")")
@@ -445,6 +542,8 @@ class Tr:
                 fn = dotted(st.value.func) or ""
                 if fn.startswith("self.logger.") or fn in self.spec.get("drop_calls", []):
                     return True
+        if isinstance(st, ast.Assign) and all(isinstance(t, ast.Name) and t.id in self.drop_assign for t in st.targets):
+            return True
         if isinstance(st, (ast.Assign, ast.AugAssign)):
             tgts = st.targets if isinstance(st, ast.Assign) else [st.target]
             if all(isinstance(t, ast.Attribute) and isinstance(t.value, ast.Name) and t.value.id == "self"
@@ -497,10 +596,28 @@ class Tr:
             return loop[0](env)
         if isinstance(st, ast.Break):
             return loop[1](env)
+        if isinstance(st, ast.Delete):
+            if len(st.targets) == 1 and isinstance(st.targets[0], ast.Subscript):
+                tg = st.targets[0]
+                nm = self.target_name(tg.value)
+                if nm in env and isinstance(env[nm], tuple) and env[nm][0] == "Dict":
+                    bk, ck, _tk = self.E(tg.slice, env)
+                    return bk + [f"let {nm} ← Py.dictDel {nm} {ck}"] + self.T(rest, env, k, loop)
+            raise Untranslatable(f"del {ast.unparse(st)}")
         if isinstance(st, ast.Assign):
             if len(st.targets) != 1:
                 raise Untranslatable("chained assignment")
-            return self.assign(st.targets[0], st.value, rest, env, k, loop)
+            tg = st.targets[0]
+            if isinstance(tg, ast.Subscript):
+                nm = self.target_name(tg.value)
+                if nm in env and isinstance(env[nm], tuple) and env[nm][0] == "Dict":
+                    bk, ck, _tk = self.E(tg.slice, env)
+                    bv, cv, tv = self.E(st.value, env)
+                    if tv != env[nm][2]:
+                        cv, tv = self.coerce_to(cv, tv, env[nm][2])
+                    return bk + bv + [f"let {nm} := Py.dictSet {nm} {ck} {cv}"] + self.T(rest, env, k, loop)
+                raise Untranslatable(f"subscript assignment {ast.unparse(st)}")
+            return self.assign(tg, st.value, rest, env, k, loop)
         if isinstance(st, ast.AugAssign):
             val = ast.BinOp(left=st.target, op=st.op, right=st.value)
             ast.copy_location(val, st)
@@ -559,6 +676,12 @@ class Tr:
             nm = self.target_name(target)
             if nm in env and env[nm] != t:
                 c, t = self.coerce_to(c, t, env[nm])
+            elif isinstance(t, tuple) and t[0] == "Dict" and t[1] == "?":
+                ann = self.spec.get("locals", {}).get(nm)
+                if ann is None:
+                    raise Untranslatable(f"`{nm} = {{}}` needs a declared local type")
+                t = parse_type(ann)
+                c = f"([] : {lean_type(t)})"
             elif isinstance(t, tuple) and t[0] == "Opt" and t[1] == "?":
                 ann = self.spec.get("locals", {}).get(nm)
                 if ann is None:
@@ -578,9 +701,9 @@ class Tr:
             if isinstance(t, tuple) and t[0] == "Opt" and t[1] == "?":
                 return f"(none : {lean_type(want)})", want
             if t == want[1]:
-                return f"some {c}", want
+                return f"(some {c})", want
             if want[1] == "Rat" and t == "Int":
-                return f"some {self.to_rat(c, t)}", want
+                return f"(some {self.to_rat(c, t)})", want
         if want == "Rat" and t == "Int":
             return self.to_rat(c, t), want
         raise Untranslatable(f"variable changes type from {want} to {t}")
@@ -632,6 +755,11 @@ class Tr:
                     used.add("self_" + n.attr)
         for f in self.mutated:
             used.add("self_" + f)
+        for q in self.mut_params:
+            used.add(q)
+        for v in env:
+            if v.startswith("it_rest"):
+                used.add(v)
         # expressions given in the spec (call argument templates, fuel) may mention further variables
         extra = " ".join(
             [str(a) for h in self.calls.values() if isinstance(h, dict) for a in h["args"]] + list(self.fuel.values())
@@ -642,23 +770,31 @@ class Tr:
         return [v for v in env if v in used]
 
     def binder(self, vs, env):
-        return " ".join(f"({v} : {lean_type(env[v])})" for v in vs)
+        pre = ("(h : Py.Heap) " if self.heap else "")
+        return pre + " ".join(f"({v} : {lean_type(env[v])})" for v in vs)
+
+    def callpre(self):
+        """leading arguments of every auxiliary definition: the heap, and the recursion fuel"""
+        return ("fuel " if self.recursive else "") + ("h " if self.heap else "")
+
+    def fuelbinder(self):
+        return "(fuel : Nat) " if self.recursive else ""
 
     def header_generic(self):
         return "{α : Type} " if self.generic else ""
 
     def make_join(self, rest, env, k, loop):
         """auxiliary definition for `rest` (the code after a branching statement); returns call-lines factory"""
-        self.counter += 1
-        nm = f"{self.name}.join{self.counter}"
-        vs = self.live_vars(rest, env) if rest else [v for v in env if v.startswith("self_") and v[5:] in self.mutated]
         if not rest:
             return k
+        self.counter += 1
+        nm = f"{self.name}.join{self.counter}"
+        vs = self.live_vars(rest, env)
         body = self.T(rest, env, k, loop)
-        text = (f"def {nm} {self.header_generic()}{self.binder(vs, env)} : Except Err {lean_type(self.res_type)} := do\n"
+        text = (f"def {nm} {self.header_generic()}{self.fuelbinder()}{self.binder(vs, env)} : Except Err {lean_type(self.res_type)} := do\n"
                 + textwrap.indent("\n".join(body), "  "))
         self.aux.append(text)
-        return lambda e: [f"{nm} {' '.join(vs)}"]
+        return lambda e: [f"{nm} {self.callpre()}{' '.join(vs)}"]
 
     def branch(self, test, env, then_fn, else_fn):
         """lines of `if test then … else …`; a short-circuit condition whose later operands can raise (an index
@@ -733,34 +869,94 @@ class Tr:
             raise Untranslatable(f"iteration over {t}")
         return b, c, t[1]
 
+    def assigned_vars(self, stmts, env):
+        """variables of env (re)bound somewhere in the statements, in env order"""
+        hit = set()
+
+        def tname(t):
+            if isinstance(t, ast.Name):
+                return t.id
+            if isinstance(t, ast.Attribute) and isinstance(t.value, ast.Name) and t.value.id == "self":
+                return "self_" + t.attr
+            if isinstance(t, ast.Subscript):
+                return tname(t.value)
+            return None
+
+        for st in stmts:
+            for n in ast.walk(st):
+                if isinstance(n, (ast.Assign, ast.AugAssign, ast.Delete)):
+                    tg = n.targets if not isinstance(n, ast.AugAssign) else [n.target]
+                    for t in tg:
+                        for el in (t.elts if isinstance(t, ast.Tuple) else [t]):
+                            hit.add(tname(el))
+                if isinstance(n, ast.For):
+                    for el in ast.walk(n.target):
+                        if isinstance(el, ast.Name):
+                            hit.add(el.id)
+                if isinstance(n, ast.Call) and isinstance(n.func, ast.Attribute) and n.func.attr in ("append", "pop", "clear"):
+                    hit.add(tname(n.func.value))
+                if isinstance(n, ast.Call) and dotted(n.func) in self.calls and isinstance(self.calls[dotted(n.func)], dict):
+                    for u in self.calls[dotted(n.func)].get("updates", []):
+                        hit.add(u)
+        return [v for v in env if v in hit]
+
+    @staticmethod
+    def has_return(stmts):
+        return any(isinstance(n, ast.Return) for st in stmts for n in ast.walk(st))
+
+    def state_tuple(self, vs, env):
+        if not vs:
+            return "()", "Unit"
+        if len(vs) == 1:
+            return vs[0], lean_type(env[vs[0]])
+        return "(" + ", ".join(vs) + ")", "(" + " × ".join(lean_type(env[v]) for v in vs) + ")"
+
     def for_stmt(self, st, rest, env, k, loop):
         if st.orelse:
             raise Untranslatable("for/else")
         b, lst, et = self.iter_list(st.iter, env)
         self.counter += 1
         nm = f"{self.name}.loop{self.counter}"
+        it = f"it_rest{self.counter}"
         pat, add = self.pattern(st.target, et)
-        # variables carried: everything live in body or rest
+        env_in = dict(env)
+        for kx, v in add.items():
+            env_in[kx] = v
+        if not self.has_return(st.body):
+            # the loop as a state transformer: returns the final values of the variables it assigns
+            state = [v for v in self.assigned_vars(st.body, env) if v not in add]
+            vs = self.live_vars([st], env)
+            tup, tty = self.state_tuple(state, env)
+            rec = lambda e: [f"{nm} {self.callpre()}{' '.join(vs)} {it}"]  # noqa
+            done = lambda e: [f"pure {tup}"]  # noqa
+            body = self.T(list(st.body), env_in, rec, (rec, done))
+            text = (
+                f"def {nm} {self.header_generic()}{self.fuelbinder()}{self.binder(vs, env)} : List {lean_type(et)} → Except Err {tty}\n"
+                f"  | [] => pure {tup}\n"
+                f"  | {pat} :: {it} => do\n" + textwrap.indent("\n".join(body), "    ")
+            )
+            self.aux.append(text)
+            return b + [f"let {tup} ← {nm} {self.callpre()}{' '.join(vs)} {lst}"] + self.T(rest, env, k, loop)
+        # a loop that can `return`: continuation-passing form, the code after the loop is part of it
+        if loop is not None:
+            raise Untranslatable("a loop with `return` nested in another loop")
         vs = self.live_vars([st] + rest, env)
-        # after-loop continuation; a separate definition when the body can `break` or rest is long
         has_break = any(isinstance(n, ast.Break) for n in ast.walk(st))
         if has_break and rest:
             after = self.make_join(rest, env, k, loop)
         else:
             after = lambda e: self.T(rest, e, k, loop)  # noqa
-        env_in = dict(env)
-        for kx, v in add.items():
-            env_in[kx] = v
-        rec = lambda e: [f"{nm} {' '.join(vs)} it_rest"]  # noqa
+        rec = lambda e: [f"{nm} {self.callpre()}{' '.join(vs)} {it}"]  # noqa
         body = self.T(list(st.body), env_in, rec, (rec, after))
         nil = after(env)
         text = (
-            f"def {nm} {self.header_generic()}{self.binder(vs, env)} : List {lean_type(et)} → Except Err {lean_type(self.res_type)}\n"
+            f"def {nm} {self.header_generic()}{self.fuelbinder()}{self.binder(vs, env)} : List {lean_type(et)} → Except Err {lean_type(self.res_type)}\n"
             f"  | [] => do\n" + textwrap.indent("\n".join(nil), "    ") + "\n"
-            f"  | {pat} :: it_rest => do\n" + textwrap.indent("\n".join(body), "    ")
+            f"  | {pat} :: {it} => do\n" + textwrap.indent("\n".join(body), "    ")
         )
         self.aux.append(text)
-        return b + [f"{nm} {' '.join(vs)} {lst}"]
+        self.tags[nm] = ("list", None)
+        return b + [f"{nm} {self.callpre()}{' '.join(vs)} {lst}"]
 
     def while_stmt(self, st, rest, env, k, loop):
         if st.orelse:
@@ -770,19 +966,41 @@ class Tr:
             raise Untranslatable(f"while loop without declared fuel: {key}")
         self.counter += 1
         nm = f"{self.name}.while{self.counter}"
+        fuel_src = self.fuel[key]
+        if fuel_src.startswith("lean:"):
+            bf, cf = [], fuel_src[5:]
+        else:
+            bf, cf0, tf = self.E(ast.parse(fuel_src, mode="eval").body, env)
+            cf = f"(Int.toNat {self.as_int(cf0, tf)} + 1)"
+        if not self.has_return(st.body):
+            state = self.assigned_vars(st.body, env)
+            vs = self.live_vars([st], env)
+            tup, tty = self.state_tuple(state, env)
+            rec = lambda e: [f"{nm} {self.callpre()}{' '.join(vs)} wf"]  # noqa
+            done = lambda e: [f"pure {tup}"]  # noqa
+            inner = self.branch(st.test, env, lambda: self.T(list(st.body), env, rec, (rec, done)), lambda: done(env))
+            text = (
+                f"def {nm} {self.header_generic()}{self.fuelbinder()}{self.binder(vs, env)} : Nat → Except Err {tty}\n"
+                f"  | 0 => throw Err.other  -- out of fuel\n"
+                f"  | wf + 1 => do\n" + textwrap.indent("\n".join(inner), "    ")
+            )
+            self.aux.append(text)
+            return bf + [f"let {tup} ← {nm} {self.callpre()}{' '.join(vs)} {cf}"] + self.T(rest, env, k, loop)
+        if loop is not None:
+            raise Untranslatable("a loop with `return` nested in another loop")
         vs = self.live_vars([st] + rest, env)
-        bf, cf, tf = self.E(ast.parse(self.fuel[key], mode="eval").body, env)
         after = self.make_join(rest, env, k, loop) if rest else (lambda e: k(e))
-        rec = lambda e: [f"{nm} {' '.join(vs)} fuel"]  # noqa
+        rec = lambda e: [f"{nm} {self.callpre()}{' '.join(vs)} wf"]  # noqa
         inner = self.branch(st.test, env, lambda: self.T(list(st.body), env, rec, (rec, after)), lambda: after(env))
         text = (
-            f"def {nm} {self.header_generic()}{self.binder(vs, env)} : Nat → Except Err {lean_type(self.res_type)}\n"
+            f"def {nm} {self.header_generic()}{self.fuelbinder()}{self.binder(vs, env)} : Nat → Except Err {lean_type(self.res_type)}\n"
             f"  | 0 => throw Err.other  -- out of fuel\n"
-            f"  | fuel + 1 => do\n"
+            f"  | wf + 1 => do\n"
             + textwrap.indent("\n".join(inner), "    ")
         )
         self.aux.append(text)
-        return bf + [f"{nm} {' '.join(vs)} (Int.toNat {self.as_int(cf, tf)} + 1)"]
+        self.tags[nm] = ("fuel", None)
+        return bf + [f"{nm} {self.callpre()}{' '.join(vs)} {cf}"]
 
     # ---- whole function --------------------------------------------------------------------
     def translate(self):
@@ -800,6 +1018,25 @@ class Tr:
             raise Untranslatable(f"declared parameters {set(self.params) - set(args)} no longer exist")
         body = self.T(list(self.fn.body), env, lambda e: [self.result(e, "()")] if self.ret == "Unit" else ["throw Err.other  -- fell off the end without a value"])
         vs = list(env)
+        if self.recursive:
+            main = (f"def {self.name} {self.header_generic()}{'(h : Py.Heap) ' if self.heap else ''}(fuel0 : Nat) "
+                    + " ".join(f"({v} : {lean_type(env[v])})" for v in vs)
+                    + f" : Except Err {lean_type(self.res_type)} :=\n  match fuel0 with\n  | 0 => throw Err.other  -- out of fuel\n  | fuel + 1 => do\n"
+                    + textwrap.indent("\n".join(body), "    "))
+            # explicit lexicographic measure (recursion fuel, rank of the definition, own list length / loop fuel):
+            # callees are emitted before their callers, so the rank is the emission index
+            out = []
+            for i, text in enumerate(self.aux, start=1):
+                head = text.split("\n", 1)[0]
+                if ": List " in head and "→ Except" in head:
+                    tb = f"termination_by l => (fuel + 1, {i}, l.length)"
+                elif ": Nat → Except" in head:
+                    tb = f"termination_by wf => (fuel + 1, {i}, wf)"
+                else:
+                    tb = f"termination_by (fuel + 1, {i}, 0)"
+                out.append(text + "\n" + tb)
+            main += f"\ntermination_by (fuel0, {len(self.aux) + 1}, 0)"
+            return "mutual\n\n" + "\n\n".join(out + [main]) + "\n\nend"
         main = (f"def {self.name} {self.header_generic()}{self.binder(vs, env)} : Except Err {lean_type(self.res_type)} := do\n"
                 + textwrap.indent("\n".join(body), "  "))
         return "\n\n".join(self.aux + [main])
@@ -832,7 +1069,7 @@ def translate_spec(spec, src_root):
         if fn is None:
             raise Untranslatable(f"function {spec['qual']} not found in {spec['path']}")
         text = Tr(spec, fn).translate()
-        deps = sorted({h["lean"] for h in spec.get("calls", {}).values() if isinstance(h, dict)})
+        deps = sorted({h["lean"] for h in spec.get("calls", {}).values() if isinstance(h, dict)} - {spec["lean"]})
         header = header.replace("import FinamModel.PyPrelude\n", "import FinamModel.PyPrelude\n"
                                 + "".join(f"import FinamModel.Translated.{d}\n" for d in deps))
         return header + text + "\n\nend Finam.Tr\n", None
